@@ -120,8 +120,10 @@ class ArrayUfunc(Contract):
                 uf = z3.Const("ufunc", Callable_)
                 ex.ufunc = uf
                 ex.inputs, ex.kwargs = OpaqueArgs("inputs"), {"**": OpaqueArgs("kwargs")}
+                kwv = _Kw(ex.kwargs["**"])
+                kwv.out = _OutArg(ex)            # what the caller gave as `out` (if anything): kind and length symbolic
                 return {"self": object(), "ufunc": CallableV(uf), "method": MethodStr(m), "inputs": (ex.inputs,),
-                        "kwargs": _Kw(ex.kwargs["**"]), "REDUCE_MAPPINGS": ex.maps["R"], "ACCUMULATE_MAPPINGS": ex.maps["A"]}
+                        "kwargs": kwv, "REDUCE_MAPPINGS": ex.maps["R"], "ACCUMULATE_MAPPINGS": ex.maps["A"]}
 
             def check(out, m=m):
                 ex = out.ex
@@ -150,6 +152,16 @@ class ArrayUfunc(Contract):
                     ex.oblige("post.arguments_forwarded_unchanged",
                               z3.BoolVal(res.args == (ex.inputs,) and getattr(kwobj, "tok", None) is ex.kwargs["**"]
                                          and len(res.kw) == 1), "post")
+                    # the one permitted adjustment: numpy's 1-tuple `out=(x,)` reaches the implementation as x itself
+                    rw, o = getattr(kwobj, "rewrites", {}), getattr(kwobj, "out", None)
+                    if rw:
+                        okr = set(rw) == {"out"} and isinstance(rw["out"], _OutItem) and rw["out"].of is o
+                        ex.oblige("post.only_a_single_output_tuple_is_unwrapped", z3.BoolVal(bool(okr)) if not okr else
+                                  z3.And(o.is_tuple, o.length == 1), "post",
+                                  note="out=(x,) -> out=x; any other keyword, and an out that is not a 1-tuple, is handed through as it is")
+                    elif o is not None:
+                        ex.oblige("post.a_single_output_tuple_is_unwrapped", z3.Not(z3.And(o.is_tuple, o.length == 1)), "post",
+                                  note="the registered functions take the output array itself (in-place operators, numpy.f(..., out=x))")
                     want = {"axis": 0} if m in ("reduce", "accumulate") else {}
                     ex.oblige("post.default_axis_of_ufunc_method", z3.BoolVal(getattr(kwobj, "defaults", None) == want), "post",
                               note="ufunc.reduce/accumulate work along axis 0 unless an axis is given; nothing else is defaulted")
@@ -159,13 +171,41 @@ class ArrayUfunc(Contract):
         raise U("__array_ufunc__ as a callee", node)
 
 
+class _OutArg:
+    """kwargs.get("out"): whatever the caller gave as output target - None / an array / a tuple of arrays (symbolic kind)"""
+
+    def __init__(self, ex):
+        self.is_tuple = ex.ctx.bool("out_is_a_tuple")
+        self.length = ex.ctx.int("len_out")
+        ex.ctx.assume(self.length >= 0)
+
+    def sx_isinstance(self, ex, name):
+        return self.is_tuple if name == "tuple" else None
+
+    def sx_len(self, ex):
+        return self.length
+
+    def sx_getitem(self, ex, idx, node):
+        if idx == 0:
+            ex.oblige(f"pre({ex.site('out_item')}).tuple_with_an_element", z3.And(self.is_tuple, self.length >= 1), "index", node)
+            return _OutItem(self)
+        raise U("out[...] with this index", node)
+
+
+class _OutItem:
+    def __init__(self, of):
+        self.of = of
+
+
 class _Kw:
-    """**kwargs object: opaque mapping handed through; `setdefault` calls are recorded"""
+    """**kwargs object: opaque mapping handed through; `setdefault` calls, a look at `out` and its replacement are recorded"""
     is_dict = True
 
     def __init__(self, tok):
         self.tok = tok
         self.defaults = {}
+        self.out = None
+        self.rewrites = {}
 
     def sx_getattr(self, ex, attr, node):
         return V.BoundMethod(self, attr)
@@ -174,7 +214,17 @@ class _Kw:
         if attr == "setdefault" and len(args) == 2 and isinstance(args[0], str):
             self.defaults.setdefault(args[0], args[1])
             return None
+        if attr == "get" and args == ["out"] and not kw:
+            if self.out is None:
+                self.out = _OutArg(ex)
+            return self.out
         raise U(f"kwargs.{attr}", node)
+
+    def sx_setitem(self, ex, idx, value, node):
+        if isinstance(idx, str):
+            self.rewrites[idx] = value
+            return
+        raise U("kwargs[...] = ... with this key", node)
 
 
 class ArrayFunction(Contract):
